@@ -426,15 +426,16 @@ def _structure_shards(tier):
     # shapes with two integer leaves are split by sign (halves the paths per process)
     sh = []
     signs1 = [("i1 < 0",), ("i1 >= 0",)]
-    signs2 = [a + c for a in signs1 for c in [("i2 < 0",), ("i2 >= 0",)]]
+    signs2 = [("i1 < 0", "i2 < 0"), ("i1 < 0", "i2 >= 0"), ("i1 >= 0", "i2 < 0"), ("i1 >= 0", "i2 == 0"),
+              ("i1 >= 0", "i2 > 0")]
     for shape in range(8):
         for pb in (False, True):
-            if pb and shape not in (1, 2, 5, 7):
+            if pb and shape not in (1, 2, 7):
                 continue
             base = ("shape == %d" % shape, "pb == %s" % pb)
             if shape in (3, 6):
                 sh += [base + x for x in signs2]
-            elif shape == 5 and pb:
+            elif shape == 5:
                 sh += [base + x for x in signs1]
             else:
                 sh.append(base)
